@@ -74,12 +74,10 @@ def coq_makefile():
 
 
 def coq_make(targets, timeout=1500, keep_going=True):
-    """make [-k] the given .vo targets (paths relative to coq/). Serialised by a lock."""
-    with Lock("coq"):
-        coq_makefile()
-        os.makedirs(os.path.join(ROOT, "ocaml", "gen"), exist_ok=True)
-        cmd = "ulimit -v 12000000; timeout %d make %s -j16 %s" % (timeout, "-k" if keep_going else "", " ".join(targets))
-        rc, out = sh(cmd, cwd=COQ, timeout=timeout + 30)
+    """make -k the given .vo targets (paths relative to coq/) through tools/coqmake.sh
+    (per-directory locks, memory cap)."""
+    cmd = [os.path.join(ROOT, "tools", "coqmake.sh")] + list(targets)
+    rc, out = sh(cmd, cwd=COQ, timeout=timeout + 60, env={"COQ_TIMEOUT": str(timeout)})
     return rc == 0, out
 
 
